@@ -49,11 +49,24 @@ def rand_exps(rng, l, K, emin=0.02, emax=None, cls=None):
     return [float(x) for x in e], str(cls)
 
 
-def rand_coeffs(rng, l, exps, M, parallel=False):
+def rand_coeffs(rng, l, exps, M, parallel=False, zeros=False, small=False):
     K = len(exps)
     for _ in range(200):
         c = rng.normal(size=(K, M))
         c[np.abs(c) < 0.05] = 0.3
+        if small and K >= 2:
+            # one primitive enters with a coefficient of 1e-3 .. 1e-4 (tight primitives of published contractions)
+            c[int(rng.integers(K))] *= 10.0 ** -float(rng.uniform(2.5, 4.0))
+        if zeros and K >= 2 and M >= 2:
+            # exact zeros as in published general contractions (cc-pVXZ, ANO): every column and every primitive keeps
+            # at least one non-zero entry
+            z = rng.random(size=(K, M)) < 0.35
+            for m in range(M):
+                z[int(rng.integers(K)), m] = False
+            for k in range(K):
+                if z[k].all():
+                    z[k, int(rng.integers(M))] = False
+            c[z] = 0.0
         if parallel and M >= 2:
             c[:, 1] = c[:, 0] * 1.1 + 1e-3 * rng.normal(size=K)
         if all(_col_condition(l, exps, c[:, m]) > 0.02 for m in range(M)):
@@ -67,18 +80,20 @@ def rand_shell(rng, l, K=None, M=None, t=None, center=None, emin=0.02, emax=None
     M = int(M or rng.integers(1, Mmax + 1))
     exps, ecls = rand_exps(rng, l, K, emin, emax, ecls)
     par = bool(M >= 2 and rng.random() < 0.1)
-    coeffs = rand_coeffs(rng, l, exps, M, parallel=par)
+    zer = bool(M >= 2 and K >= 2 and not par and rng.random() < 0.15)
+    sml = bool(K >= 2 and rng.random() < 0.15)
+    coeffs = rand_coeffs(rng, l, exps, M, parallel=par, zeros=zer, small=sml)
     if center is None:
         center = rng.normal(size=3) * 1.5
     t = t or str(rng.choice(["c", "p"]))
     return {"l": int(l), "c": [float(x) for x in center], "e": exps, "k": coeffs, "t": t,
-            "_cls": ["exp:" + ecls] + (["coef:parallel"] if par else [])}
+            "_cls": ["exp:" + ecls] + (["coef:parallel"] if par else []) + (["coef:zeros"] if zer else []) + (["coef:small"] if sml else [])}
 
 
-GEOM_CLASSES = ["coincident", "collinear", "coplanar", "general", "axis-zero", "far", "near"]
+GEOM_CLASSES = ["coincident", "collinear", "coplanar", "general", "axis-zero", "axis-almost", "far", "near"]
 
 
-def rand_centers(rng, n, cls=None, scale=1.5):
+def rand_centers(rng, n, cls=None, scale=1.5, offset=True):
     cls = cls or str(rng.choice(GEOM_CLASSES))
     if cls == "coincident":
         c0 = rng.normal(size=3) * scale
@@ -96,15 +111,27 @@ def rand_centers(rng, n, cls=None, scale=1.5):
         pts[:, ax] = pts[0, ax]
         if n > 1:
             pts[1, (ax + 1) % 3] = pts[0, (ax + 1) % 3]
+    elif cls == "axis-almost":  # coordinates that agree to 1e-6 relative but not exactly (nearly aligned centres)
+        pts = rng.normal(size=(n, 3)) * scale
+        ax = int(rng.integers(3))
+        pts[:, ax] = pts[0, ax] * (1.0 + 1e-6 * rng.normal(size=n))
+        pts[0, ax] = pts[0, ax]
     elif cls == "far":
         pts = rng.normal(size=(n, 3)) * scale
         if n > 1:
             pts[1:] += rng.choice([4.0, 12.0, 30.0]) * np.array([1.0, 0.3, -0.2])
     elif cls == "near":
         c0 = rng.normal(size=3) * scale
-        pts = c0 + rng.normal(size=(n, 3)) * rng.choice([1e-8, 1e-3, 0.3])
+        pts = c0 + rng.normal(size=(n, 3)) * rng.choice([1e-8, 1e-6, 1e-5, 1e-4, 1e-3, 0.3])
     else:
         pts = rng.normal(size=(n, 3)) * scale
+    pts = np.asarray(pts, dtype=float)
+    if offset and rng.random() < 0.25:
+        # the whole system far from the coordinate origin (finite-difference displaced copies, floating functions):
+        # nearly coincident centres then differ by less than 1e-5 x |coordinate|
+        d = rng.normal(size=3)
+        pts = pts + d / np.linalg.norm(d) * float(rng.uniform(8.0, 30.0))
+        cls = cls + "+offset"
     return [[float(v) for v in p] for p in pts], "geom:" + cls
 
 
@@ -228,10 +255,15 @@ def rand_sym(rng, n, kind=None):
 
 
 def rand_transform(rng, n, kind=None):
-    kind = kind or str(rng.choice(["none", "orth", "singular", "fewer", "more", "general"]))
+    kind = kind or str(rng.choice(["none", "orth", "singular", "fewer", "more", "general", "near-identity", "identity"]))
     if kind == "none":
         return None, "T:none"
-    if kind == "orth":
+    if kind == "near-identity":
+        # a renormalisation / tiny rotation: close to the identity but not equal to it
+        T = np.eye(n) * (1.0 + float(rng.choice([5e-6, -3e-6, 2e-7]))) + np.diag(1e-6 * rng.normal(size=n)) + 1e-9 * rng.normal(size=(n, n))
+    elif kind == "identity":
+        T = np.eye(n)
+    elif kind == "orth":
         T = np.linalg.qr(rng.normal(size=(n, n)))[0]
     elif kind == "singular":
         T = rng.normal(size=(n, n))
